@@ -11,6 +11,7 @@ hooks = [l.split()[0] for l in log if l.split(" ", 1)[1].startswith("verif hooks
 
 E = {
  "E1": ("harness/e1.py", "scheduler: TLC model checking of spec/Scheduler.tla against spec/SchedObs.tla, schedule-exhaustive controlled executions of the real scheduler through the hooks, each validated by TLC against spec/SchedTrace.tla"),
+ "E4": ("harness/e4.py", "life-cycle: histories of operations (calls, failing calls, setup, executors, re-runs, deep copies, compose, config reload, caching runs, restarts) on real DAG instances; every step validated by TLC against spec/Lifecycle.tla through spec/LifecycleTrace.tla"),
  "E3": ("harness/e3.py", "graph algebra: spec/Selection.tla and spec/CompoundPriority.tla evaluated by TLC (spec/SelCheck.tla, spec/CpCheck.tla) on every observation of executor / setup / call selections, debug settings, priority tables and mc=1 orders made on the real library"),
 }
 CHECKS = {
@@ -25,6 +26,11 @@ CHECKS = {
         "trusted: TLC, the node_enter hook, the harness's case enumeration; bounds: shapes up to 4 nodes (selections) / 5 nodes (compound priority); selections per DAG are sampled in the quick tier",
         "TLA+ specification as executable oracle (TLC) over exhaustively enumerated small cases observed on the real library")
     for p in ["C07", "C12", "C13"]},
+ **{p: ("E4",
+        "spec/Lifecycle.tla defines the abstract state a DAG instance, an executor and a cache file carry between operations and what every operation must observe; the harness runs thousands of operation histories on the real library (three template DAGs, sync and async) and TLC validates every step of every history (spec/LifecycleTrace.tla), naming the violated clause",
+        "trusted: TLC, the node_enter / exec_begin hooks, the harness's comparison of returned values with a freshly built DAG; bounds: three template DAGs, all histories of length <= 2 over a 27-operation alphabet (sampled in the quick tier) plus random histories up to length ~9",
+        "TLC trace validation of operation histories against an explicit TLA+ state machine of the library's life-cycle")
+    for p in ["C11", "C15", "C18"]},
 }
 checks = []
 for p in sorted(CHECKS):
